@@ -4,7 +4,7 @@ import json
 import loaderfam as lf
 import vlib
 
-FLAGS = '{{}, {"TSYNC"}, {"LOG"}, {"TSYNC", "LOG"}}'
+FLAGS = '{{}, {"TSYNC"}, {"LOG"}, {"TSYNC", "LOG"}, {"SPEC"}, {"TSYNC", "SPEC"}}'
 
 
 def judge(case, o):
@@ -180,7 +180,7 @@ def check(ctx, replay=None):
             attempt = any(x["op"] == "migrate" for x in e["hook"])
             key = (h["priv"], e["nnp"], tuple(e["flags"]), attempt)
             cases[key] = {"priv": h["priv"], "nnp": e["nnp"], "flags": e["flags"], "attempt": attempt, "spec_res": e["res"], "spec_same_thread": e["kt"] == e["caller"]}
-    if len(cases) < 32:
+    if len(cases) < 48:
         raise vlib.Machinery("only %d load cases generated" % len(cases))
     envs = [{"GOMAXPROCS": "1"}, {}] if not th else [{"GOMAXPROCS": "1"}, {}, {"GOMAXPROCS": "2"}, {"GOMAXPROCS": "16"}]
     reps = 1 if not th else 25
